@@ -82,11 +82,19 @@ pub struct Core {
 }
 
 pub const FAULT_MSG: &str = "injected I/O fault";
+pub const BUDGET_MSG: &str = "verif stream: operation budget exhausted (more than 16 operations per byte: livelock?)";
 
 impl Core {
     fn fault(&mut self) -> Option<io::Error> {
         let k = self.ops;
         self.ops += 1;
+        // livelock guard (deterministic, no clock): a caller that needs more than 16 operations per byte of the
+        // stream (plus slack) is re-reading or re-writing without end; from then on every operation fails, which
+        // the caller has to report - the outcome then differs from the in-memory one and is judged as such
+        if k > 16 * (self.data.len() as u64 + 4096) + 20_000 {
+            self.faults_returned += 1;
+            return Some(io::Error::new(io::ErrorKind::Other, BUDGET_MSG));
+        }
         if self.sched.fail_once_at == Some(k) {
             self.faults_returned += 1;
             return Some(io::Error::new(io::ErrorKind::TimedOut, "injected transient I/O fault"));
